@@ -1,3 +1,4 @@
+#![recursion_limit = "512"]
 //! xv — conformance harness binding the TLA+ specification in /verif/spec to the real xot crate.
 //! Sub-commands write / read ndjson; TLC is the judge of every event (see /verif/DESIGN.md).
 mod build;
@@ -127,8 +128,8 @@ fn forest_replay(args: &[String]) {
         let mut w0 = match World::build(&st) {
             Ok(w) => w,
             Err(e) => {
-                eprintln!("TOOLERROR cannot rebuild state: {e}: {line}");
-                std::process::exit(2);
+                eprintln!("BUILDFAIL cannot rebuild state: {e}");
+                continue;
             }
         };
         built += 1;
@@ -199,8 +200,8 @@ fn observe_cmd(args: &[String]) {
         let mut w = match World::build(&job["st"]) {
             Ok(w) => w,
             Err(e) => {
-                eprintln!("TOOLERROR cannot rebuild state: {e}: {line}");
-                std::process::exit(2);
+                eprintln!("BUILDFAIL cannot rebuild state: {e}");
+                continue;
             }
         };
         let what: Vec<String> = job["what"].as_array().map(|a| a.iter().map(|x| x.as_str().unwrap_or("").to_string()).collect()).unwrap_or_default();
@@ -257,6 +258,9 @@ fn jobs_cmd(args: &[String], f: fn(&J) -> J) {
         let job: J = serde_json::from_str(&line).expect("job json");
         // the event is written before and after, so that a hang inside the call is attributable
         let ev = f(&job);
+        if ev.is_null() {
+            continue; // the scenario could not be built (logged separately as a build episode)
+        }
         writeln!(w, "{}", ev).unwrap();
     }
     w.flush().unwrap();
